@@ -958,10 +958,11 @@ set_option maxRecDepth 4096 in
 /-- **Every operation of the anchor files that can panic is accounted for**: the divisions and remainders by
     a non-constant, the shifts by a non-constant, the index and slice expressions, the sizing calls (`Grow`,
     `make`, `strings.Repeat`), the explicit `panic`, the unchecked type assertions and the sums / differences
-    / products of two non-constant operands of keyBuilder.go, argSplitter.go, the stdlib files of the
-    property, stdmath/ops.go and stringSplitter/splitter.go - as listed by the translator from /repo on
-    every run - are exactly the lines of `siteTable`, each of which names the guard (a theorem of this
-    file, or the structural reason) that makes it safe. -/
+    / products of two non-constant operands of keyBuilder.go, argSplitter.go, every file of the helper
+    library (pkg/expressions/stdlib), the formula compiler (pkg/expressions/stdmath), contextArray.go,
+    stageAnalysis.go, funcfile/stage.go and stringSplitter/splitter.go - as listed by the translator from
+    /repo on every run - are exactly the lines of `siteTable`, each of which names the guard (a theorem of
+    this file, or the structural reason) that makes it safe. -/
 theorem panic_sites_classified :
     Gen.C08.panicSites = siteTable.map (·.1) ∧ (siteTable.all fun p => p.2 != "") = true :=
   ⟨rfl, rfl⟩
